@@ -225,6 +225,7 @@ func (l c15) Exec(env *core.Env) *core.Result {
 
 	values := map[int64]*c15Val{}
 	model := map[string]*c15Entry{}
+	entryPath := map[string]string{} // URL -> file that holds its entry, learnt from observation
 	var trace []c15Step
 	mkVal := func(op core.Op) *c15Val {
 		now := time.Now().Truncate(time.Second)
@@ -309,9 +310,21 @@ func (l c15) Exec(env *core.Env) *core.Result {
 					e = &c15Entry{cands: []*c15Val{nil}}
 					model[v.url] = e
 				}
+				dirBefore := snapshot(root)
 				err := cache.Set(ctx, v.url, v.bundle)
 				st := c15Step{Op: "set", URL: short(v.url), Val: v.id, At: at}
 				if err == nil {
+					// where this URL's entry lives is learnt from what the store changed (not from the
+					// implementation's naming scheme): the one regular file that is new or different afterwards
+					var changed []string
+					for name, ent := range snapshot(root) {
+						if ent.Type == "file" && dirBefore[name] != ent {
+							changed = append(changed, name)
+						}
+					}
+					if len(changed) == 1 {
+						entryPath[v.url] = filepath.Join(root, changed[0])
+					}
 					e.cands, e.corrupt = []*c15Val{v}, ""
 					st.Outcome = "ok"
 				} else {
@@ -390,7 +403,11 @@ func (l c15) Exec(env *core.Env) *core.Result {
 			case "corrupt":
 				url := c15URLs[op.Int(0)]
 				e := model[url]
-				path := filepath.Join(root, fileNameOf(url))
+				path := entryPath[url]
+				if path == "" {
+					res.Probe("corruption_skipped_entry_file_unknown")
+					continue
+				}
 				b, err := os.ReadFile(path)
 				if e == nil || err != nil {
 					continue
